@@ -23,7 +23,7 @@ import os
 from .facts import walk, strip, const
 
 KNOWN_PATH = os.path.join(os.path.dirname(os.path.abspath(__file__)), "known_functions.json")
-MAX_BLOCKS = 80
+MAX_BLOCKS = 400
 _KID_KEYS = ("fn", "base", "e", "lhs", "rhs", "c", "then", "else", "idx", "of")
 _KID_LISTS = ("args", "elems", "kids")
 
@@ -266,7 +266,8 @@ def _inline_one(caller, helper, n_inst):
             id_off, did_off = mid + 1000, mdid + 100
             suffix = "__%s%d" % (hname, n_inst)
             hcopy = copy.deepcopy(helper)
-            names = {p["name"] for p in hcopy.get("params", [])} | {l["name"] for l in hcopy.get("locals", [])}
+            # static locals keep their names (one object however often the helper is inlined; tables are looked up by name)
+            names = {p["name"] for p in hcopy.get("params", [])} | {l["name"] for l in hcopy.get("locals", []) if not l.get("static")}
             hblocks = hcopy["cfg"]["blocks"]
             base_bid = max(x["id"] for x in blocks) + 1
             bmap = {hb["id"]: base_bid + k for k, hb in enumerate(hblocks)}
@@ -377,7 +378,11 @@ def _inline_one(caller, helper, n_inst):
                 if p["name"] + suffix not in substituted:
                     caller["locals"].append({"name": p["name"] + suffix, "t": p.get("t")})
             for l in hcopy.get("locals", []):
-                caller["locals"].append(dict(l, name=l["name"] + suffix))
+                if l.get("static"):
+                    if not any(x["name"] == l["name"] for x in caller["locals"]):
+                        caller["locals"].append(dict(l))
+                else:
+                    caller["locals"].append(dict(l, name=l["name"] + suffix))
             if not void:
                 caller["locals"].append({"name": retvar, "t": hcopy.get("ret")})
             _drop_unreachable(caller)
